@@ -41,7 +41,7 @@ var whoMayCall = map[string]struct {
 		"routing table is filled during merge only (C04)"},
 	"merger.(TypeURLMap).SetTypeIsImplementsNode": {[]string{"merger.(TypeURLMap).SetFromSchema"},
 		"Node marking happens during merge only (C04)"},
-	"time.Now": {[]string{"planner.(*CachedPlanner).Plan", "planner.(*CachedPlanner).clean"},
+	"time.Now": {[]string{"planner.(*CachedPlanner).*"},
 		"wall-clock time is used by the plan cache's TTL only (C13)"},
 }
 
@@ -89,8 +89,12 @@ func ruleCallers(filter func(callee string) bool) ruleFn {
 			}
 			spec := whoMayCall[callee]
 			allowed := map[string]bool{}
+			var prefixes []string
 			for _, c := range spec.callers {
 				allowed[c] = true
+				if strings.HasSuffix(c, "*") {
+					prefixes = append(prefixes, strings.TrimSuffix(c, "*"))
+				}
 			}
 			found := 0
 			var callers []string
@@ -100,7 +104,13 @@ func ruleCallers(filter func(callee string) bool) ruleFn {
 			sort.Strings(callers)
 			for _, c := range callers {
 				site := actual[callee][c]
-				if allowed[c] {
+				okc := allowed[c]
+				for _, p := range prefixes {
+					if strings.HasPrefix(c, p) {
+						okc = true
+					}
+				}
+				if okc {
 					found++
 					r.OK("R4a", c, "calls "+callee, r.P.pos(site.Pos()), "listed caller: "+spec.why)
 				} else {
